@@ -208,10 +208,14 @@ impl<T> DataReaderEntity<T> {
             let view_state = instance.view_state;
             let instance_state = instance.instance_state;
 
+            // Generation difference between the most recent sample of the instance in the reader and
+            // this sample (DDS 1.4, 2.2.2.5.1.5). The sample's own generation is the one recorded when
+            // it was received: replaying only the collected samples misses generations whose samples
+            // were already taken or are filtered out of this collection.
             let absolute_generation_rank = (instance.most_recent_disposed_generation_count
                 + instance.most_recent_no_writers_generation_count)
-                - (instance_from_collection.most_recent_disposed_generation_count
-                    + instance_from_collection.most_recent_no_writers_generation_count);
+                - (cache_change.disposed_generation_count
+                    + cache_change.no_writers_generation_count);
 
             let (data, valid_data) = match cache_change.kind {
                 ChangeKind::Alive | ChangeKind::AliveFiltered => {
